@@ -1,5 +1,5 @@
 #!/usr/bin/env python3
-"""mutate.py [--max N] [--jobs J] [--seed S] [--out FILE] <file relative to /repo> ...
+"""mutate.py [--max N] [--jobs J] [--seed S] [--out FILE] [--lines A-B] <file relative to /repo> ...
 
 Checker self-assessment by small syntactic mutants (complements the hand-written seeds): every mutant is one token
 changed in one line of library code (relational / arithmetic / bit operators swapped, an integer literal moved by one,
@@ -119,6 +119,9 @@ def suite_sig(cwd):
     return out
 
 
+LINES = [0, 10**9]
+
+
 def main():
     args = sys.argv[1:]
     mx, jobs, seed, outp = 200, 6, 1, None
@@ -129,13 +132,17 @@ def main():
         elif a == '--jobs': jobs = int(args.pop(0))
         elif a == '--seed': seed = int(args.pop(0))
         elif a == '--out': outp = args.pop(0)
+        elif a == '--lines':
+            lo, hi = args.pop(0).split('-')
+            LINES[0], LINES[1] = int(lo), int(hi)
         else: files.append(a)
     rnd = random.Random(seed)
     todo = []
     for f in files:
         src, ms = mutants_of(f)
         for (ln, new, what) in ms:
-            todo.append((f, ln, new, what, src[ln]))
+            if LINES[0] <= ln + 1 <= LINES[1]:
+                todo.append((f, ln, new, what, src[ln]))
     rnd.shuffle(todo)
     todo = todo[:mx]
     base = "/var/tmp/mut-%d" % os.getpid()
@@ -180,7 +187,7 @@ def main():
                         break
                 fired = {}
                 for pr in props.split():
-                    rc, o = sh("%s/bin/sv -prop %s -tier quick -repo %s/repo -verif %s/verif" % (VERIF, pr, d, d), VERIF)
+                    rc, o = sh("%s -prop %s -tier quick -repo %s/repo -verif %s/verif" % (os.environ.get("SV_BIN", VERIF + "/bin/sv"), pr, d, d), VERIF)
                     if rc != 0:
                         keys = [l.strip().split(' @')[0] for l in o.splitlines() if l.startswith('  C')]
                         fired[pr] = keys[:2]
